@@ -8,7 +8,7 @@ import re
 from rules.common import *
 from effects import classify_external
 
-BAD = ("io", "time", "thread", "random", "alloc_addr")
+BAD = ("io", "time", "thread", "random", "alloc_addr", "uninit")
 # iteration over a std hash collection: the order depends on the per-process / per-thread random seed of RandomState
 HASH_ITER = re.compile(r"<std::collections::(HashSet|HashMap)<.*> as std::iter::IntoIterator>::into_iter$|"
                        r"^std::collections::(HashSet|HashMap)::<.*>::(iter|iter_mut|keys|values|values_mut|into_keys|into_values|drain|retain|extract_if)$|"
